@@ -10,9 +10,13 @@ use lrpar::{LexError, LexParseError, Lexer, NonStreamingLexer};
 use std::fmt::Write;
 
 /// NonStreamingLexer::{line_col, span_lines_str} and LexParseError::pp on the same
-/// text: one rule matching every character except 'X' (so an 'X' is a lexing error).
+/// text: every character lexes except 'X' (no rule) and 'Y' (rule without token id).
 fn lexer_queries(out: &mut String, text: &str, bounds: &[usize]) {
-    let def = LRNonStreamingLexerDef::<DefaultLexerTypes<u32>>::from_str("%%\n[^X] 'c'\n").unwrap();
+    // 'X' is matched by no rule; 'Y' is matched by a named rule that has no token id
+    // (a token "missing from the parser"): two different error paths of the scan loop.
+    let mut def = LRNonStreamingLexerDef::<DefaultLexerTypes<u32>>::from_str("%%\n[^XY] 'c'\nY 'M'\n").unwrap();
+    let ids: std::collections::HashMap<&str, u32> = [("c", 0u32)].into_iter().collect();
+    let _ = def.set_rule_ids(&ids);
     let lexer = def.lexer(text);
     for (i, &s) in bounds.iter().enumerate() {
         for &e in &bounds[i..] {
